@@ -378,6 +378,10 @@ func exploreScenario(c *vk.Ctx, s scenario, ps [][]int, preempt int) {
 			c.Violation("harness/divergence", w, x.Diverged)
 			return true
 		}
+		if x.Hung != "" {
+			c.Violation("hang", w, x.Hung)
+			return false
+		}
 		if x.Deadlock != "" {
 			c.Violation("deadlock", w, x.Deadlock)
 			return true
@@ -500,6 +504,10 @@ func boundary(c *vk.Ctx, idx *int64) {
 				c.Trace(1)
 				c.Transition(int64(len(x.Points)))
 				w := witness{Scenario: s.String() + fmt.Sprintf(" order#%d", oi)}
+				if x.Hung != "" {
+					c.Violation("hang", w, x.Hung)
+					return
+				}
 				if x.Deadlock != "" {
 					c.Violation("deadlock/boundary", w, x.Deadlock)
 					continue
